@@ -121,7 +121,7 @@ CLAIMED = {
         "reachable by ANY op sequence and is preserved by every single op from any invariant state; refused connects and "
         "disconnects of unconnected channels leave the whole state equal; after remove_child / node.disconnect / replace_child no "
         "channel points at the node. Edit histories on real nodes are compared with the model after every op.",
-   design="7/C12", technique="Coq invariant proof by induction over op lists + differential correspondence + oracle",
+   design="7/C12", technique="Coq invariant proof by induction over op lists + Channel.connect REGENERATED from channels.py on every run and proved equal to the model's connect (translator tie) + differential correspondence + oracle",
    note="Macro value_receiver links are not connections (S22 observation) and are outside this layer; executors/merge and "
         "restore-from-state are covered by C10/C07. Iteration orders of python sets are read back from the implementation."),
  "C13": dict(
@@ -186,7 +186,7 @@ CLAIMED = {
         "and completion order, re-runs rebuild exactly the body nodes of the current lengths; two refuted witnesses (known findings "
         "mixed zero length, column map clash). Real For nodes (incl. thread-pool bodies) are compared with the model and with a "
         "plain-python nested-loops reference.",
-   design="7/C16", technique="Coq proof (induction over key lists / row indices / histories) + differential correspondence + oracle",
+   design="7/C16", technique="Coq proof (induction over key lists / row indices / histories) + dictionary_to_index_maps REGENERATED from for_loop.py on every run and proved equal to the model's index_maps (translator tie) + differential correspondence + oracle",
    note="pandas internals, failing bodies, in-place mutation of inputs not modelled; partial theorems carry the guards "
         "mixed_zero=false and distinct column names."),
  "C19": dict(
